@@ -97,7 +97,7 @@ func c04Ops(thorough bool) []c04Op {
 		tx("tx world->a 5 @t0 (back-dated)", "l1", c04T0, metadata.Metadata{}, nil, false, p("world", "a", "X", 5)),
 		tx("tx world->a 5 @t2 (future)", "l1", c04T2, metadata.Metadata{}, nil, false, p("world", "a", "X", 5)),
 		tx("tx world->a 2^63+1 +02:00 offset", "l1", c04TOff, metadata.Metadata{}, nil, false, ledger.NewPosting("world", "a", "X", new(big.Int).Add(new(big.Int).Lsh(big.NewInt(1), 63), big.NewInt(1)))),
-		tx("tx with metadata+reference+account metadata", "l1", c04T1, metadata.Metadata{"m": "1"}, map[string]metadata.Metadata{"a": {"k": "v"}, "z": {"only": "meta"}}, true, p("world", "a", "X", 1)),
+		tx("tx with metadata+reference+account metadata", "l1", c04T1, metadata.Metadata{"m": "1"}, map[string]metadata.Metadata{"a": {"k": "v"}, "z": {"only": "meta"}, "b": {"seen": "y"}}, true, p("world", "a", "X", 1)), // (a: takes part; z: new, takes no part; b: takes no part and may exist already)
 		{Name: "revert last unreverted tx", Ledger: "l1", Make: func(st *c04State) []*ledger.Log {
 			f := memstore.Fold(st.logs["l1"])
 			ids := f.TxIDs()
